@@ -427,6 +427,9 @@ func checkFormatLoader(p *Program, r *Report, pre, short string) {
 				}
 				continue
 			}
+			if ev.Kind == "call" && (ev.Fn == "(*bytes.Buffer).Len" || ev.Fn == "(*bytes.Buffer).Cap" || ev.Fn == "(*bytes.Buffer).Available") {
+				continue // asks the buffer how much it holds: nothing is drained and nothing can fail
+			}
 			if recC != nil && ev.Kind == "call" && sameB(ev.Res) {
 				continue // the replay head: a reader over the recording, built after the parser ran
 			}
@@ -468,6 +471,12 @@ func checkFormatLoader(p *Program, r *Report, pre, short string) {
 			}
 		}
 		tp, _ := o.Ret.(Tuple)
+		if len(tp) == 3 && !goodMulti[valKey(tp[1])] {
+			// a stateless wrapper whose Read hands through to the replay stream stands for it
+			if w := forwardedReader(p, e, st, tp[1]); w != nil && goodMulti[valKey(w)] {
+				tp = Tuple{tp[0], w, tp[2]}
+			}
+		}
 		if len(tp) != 3 || !goodMulti[valKey(tp[1])] {
 			got := "?"
 			if len(tp) == 3 {
